@@ -222,6 +222,12 @@ def rules(chk, P, prefix="C13.R7"):
                     if not any(mir.o_is_param(b.origin(a), idx=i) for a in c.args[1:]):
                         return False, "AnyStream::%s does not pass on its parameter %s" % (n, b.local_name(i)), [], c.loc
             ev.append(b.span)
+        # each of the four fragment events has its own forwarder: sval's provided `*_fragment_computed` methods fall back to the borrowed form or - for
+        # bytes - replay the fragment byte by byte through the bridge as a sequence of integers, inside the bytesValue frame that is open
+        lacking = [n for n in ("text_fragment", "text_fragment_computed", "binary_fragment", "binary_fragment_computed") if n not in meths]
+        if lacking:
+            return False, ("the AnyValue bridge does not override %s: sval's provided method does not forward the fragment as it is (computed bytes are "
+                           "replayed one integer per byte inside the open bytesValue field - the payload no longer decodes)" % lacking), [], None
         if len(ev) < 4:
             raise mir.AnchorMissing("fragment forwarders of the AnyValue bridge (found %d)" % len(ev))
         return True, "", ev
